@@ -343,8 +343,9 @@ func (p *proxyConn) handle() error {
 	ctx := req.Context()
 
 	// Requests read from an intercepted TLS session are https requests, whatever
-	// X-Forwarded-Proto the client supplies: they must not leave in clear text.
-	if p.mitm && req.URL.Scheme == "" {
+	// X-Forwarded-Proto the client supplies and whatever scheme an absolute
+	// request-target names: they must not leave in clear text.
+	if p.mitm && req.URL.Scheme != "https" {
 		req.URL.Scheme = "https"
 	}
 	p.fixRequestScheme(req)
